@@ -117,8 +117,20 @@ U8(z) == Close({Lit(se), Lit(sshi), Lit(sgrin), Cls({se,sshi}), NCls({se}), NCls
              ClsF({sk}), Dot, DotS, Lit(sfffd), Cls({sa,sfffd})}, FALSE)
 
 \* A family is a sequence (so that it can be sharded by index).
+(* ---- large literal alternations: Teddy (2..32 literals), Fat Teddy (33..64), Aho-Corasick (> 64) ---- *)
+\* the k-th word over {a,b,c}: base-3 digits of k, length 3 (k < 27) or 4
+Digit3(d) == IF d = 0 THEN sa ELSE IF d = 1 THEN sb ELSE sc
+Word3(k) == IF k < 27 THEN <<Digit3(k \div 9), Digit3((k \div 3) % 3), Digit3(k % 3)>>
+            ELSE LET j == k - 27 IN <<Digit3((j \div 27) % 3), Digit3((j \div 9) % 3), Digit3((j \div 3) % 3), Digit3(j % 3)>>
+\* n distinct words starting at offset o, stride st (st coprime to 108 visits all words)
+BigAlt(n, o, st) == AltSeq([i \in 1..n |-> LitStr(Word3((o + i * st) % 108))])
+BIGL(z) == {BigAlt(n, o, st) : n \in {9, 17, 33, 65, 70}, o \in {0, 40}, st \in {1, 5}}
+           \cup {Cap(BigAlt(n, 3, 7)) : n \in {9, 33, 65}}
+           \cup {Cat(BigAlt(n, 11, 1), Plus(Cls({sa,sb}), TRUE)) : n \in {9, 33}}
+
 FamilySet(f) ==
-  CASE f = "LIT" -> LIT(0) \cup LITF(0)
+  CASE f = "BIG" -> BIGL(0)
+    [] f = "LIT" -> LIT(0) \cup LITF(0)
     [] f = "REV" -> SUF(0) \cup INN(0) \cup SET(0) \cup ML(0)
     [] f = "ANC" -> ANC(0)
     [] f = "CC"  -> CC(0) \cup CC3(0)
@@ -128,7 +140,7 @@ FamilySet(f) ==
 
 G2Base(f) == SetToSeq(Close(CASE f = "G2a" -> G2aAtoms [] f = "G2m" -> G2mAtoms [] f = "G2u" -> G2uAtoms [] f = "G2x" -> G2xAtoms, f # "G2u"))
 IsG2(f) == f \in {"G2a","G2m","G2u","G2x"}
-FamilyNames == <<"G2a","G2m","G2u","G2x","LIT","REV","ANC","CC","DIG","CAP","U8">>
+FamilyNames == <<"G2a","G2m","G2u","G2x","LIT","REV","ANC","CC","DIG","CAP","U8","BIG">>
 
 (* --------------------------- haystack alphabets -------------------------- *)
 \* fold partners present in the table
